@@ -236,7 +236,8 @@ class E2ECheck:
         if p == "C02":
             return [("Task.start ordering automaton", tot.get("starts", 0), 1000),
                     ("direct-drive starts of tasks with parents under the chaos policy", tot.get("direct_starts_with_parents", 0), 1000),
-                    ("direct-drive multi-timestamp graphs", tot.get("direct_multi_timestamp_graphs", 0), 200)]
+                    ("direct-drive multi-timestamp graphs", tot.get("direct_multi_timestamp_graphs", 0), 200),
+                    ("direct-drive releases of tasks that carry their own declared release time", tot.get("direct_releases_with_declared_time", 0), 300)]
         if p == "C03":
             return [("completion exactness", tot.get("completions_checked", 0), 1000),
                     ("queue order at pop", tot.get("pops", 0), 5000),
